@@ -346,6 +346,13 @@ func scenarioC10(x *runner.X) {
 				s.Fail("harness", "rebuild with another epoch", role+": "+err.Error())
 			}
 			singles = append(singles, fault{role, "records a different epoch", p})
+			// an epoch number that agrees with the configured one in its low 32 bits (an identity
+			// check that narrows the stored value would accept it); a writer that cannot produce
+			// such a file is not a fault of the loader, the case is then skipped
+			if pf, err := c10rebuild(role, w1.w, e1+(uint64(1+t.Intn(3))<<32), w1.w.Root, filepath.Join(rebuilt, role+"-epoch-far")); err == nil {
+				singles = append(singles, fault{role, "records an epoch that differs from the configured one by a multiple of 2^32", pf})
+				x.Probe("c10.far_epoch_file")
+			}
 			if role != "slot_to_blocktime" {
 				p, err := c10rebuild(role, w1.w, e1, w2.w.Root, filepath.Join(rebuilt, role+"-root"))
 				if err != nil {
